@@ -195,6 +195,21 @@ example :
     ∧ Item.ev (.requested 3 0) ∈ run ops ∧ Item.ev (.returned 3 (some 5)) ∈ run ops := by
   decide
 
+/-- `uncache_race` witnesses on the model (the F18b and F18c schedules): (1) A downloads, B waits, the
+    response is released, A resumes and returns, `uncache` runs BEFORE B resumes — B re-fetches (a second
+    request, by B) instead of raising; (2) A downloads, `uncache`, B starts a new download, A's pre-uncache
+    response is released — A does not store it, waits for B's download, and a later lookup C gets B's outcome. -/
+example :
+    let f18b : List Op := [.lookup 0, .lookup 0, .step, .step, .complete 0 (some 1), .step, .uncache 0, .step,
+                           .complete 1 (some 2), .step]
+    let f18c : List Op := [.lookup 0, .step, .uncache 0, .lookup 0, .step, .complete 0 (some 1), .step,
+                           .lookup 0, .step, .complete 1 (some 2), .step, .step, .step]
+    judge (run f18b) = true ∧ Item.ev (.returned 0 (some 1)) ∈ run f18b ∧ Item.ev (.requested 1 0) ∈ run f18b
+      ∧ Item.ev (.returned 1 (some 2)) ∈ run f18b
+    ∧ judge (run f18c) = true ∧ Item.ev (.returned 0 (some 2)) ∈ run f18c ∧ Item.ev (.returned 1 (some 2)) ∈ run f18c
+      ∧ Item.ev (.returned 2 (some 2)) ∈ run f18c ∧ Item.ev (.returned 2 (some 1)) ∉ run f18c := by
+  decide
+
 /-- F18a's witness on the model: lookup A, lookup B, cancel A — B re-fetches, later lookups share B's
     outcome, every lookup ends; the whole trace is accepted by the judge (non-vacuity of the
     theorems above: the trace contains a cancellation of the marker's owner, a re-fetch, a waiter) -/
